@@ -198,3 +198,12 @@ Example C18_demo_history : forall mono,
   [VInt 10800; VInt 10800; VTup [VInt (-18000)]; VInt (-18000); VInt 3600; VInt 3600; VInt 0].
 Proof. exact demo_answers. Qed.
 Print Assumptions C18_demo_history.
+
+(* the direction switch (instant lookup vs wall-clock lookup) in a zone with a transition *)
+Example C18_demo_direction : forall mono,
+  answers (xoracle demo_world) mono (init_state (xinit demo_world))
+    [SetTZ B"/tmp/step"; Convert false (2000, 1, 1800); Convert true (2000, 1, 1800); Convert true (2000, 1, 7200);
+     Convert true (2000, 1, 11640); Convert false (1999, 365, 86399)] =
+  [VInt 11640; VTup [VInt 4380]; VTup []; VTup [VInt 11640]; VInt 4380].
+Proof. exact demo_direction. Qed.
+Print Assumptions C18_demo_direction.
